@@ -51,6 +51,13 @@ def run(ctx):
     ctx.run_rule("R7-identity-lookup", r7_identity, F)
     from rules import c09
     ctx.run_rule("R8-batch-forget-default", c09.batch_forget_default, F)
+    ctx.floor('R1-entry-pairing', 14)
+    ctx.floor('R2-readdir-pairing', 6)
+    ctx.floor('R3-forget-shape', 10)
+    ctx.floor('R4-lookup-shape', 4)
+    ctx.floor('R5-who-may', 5)
+    ctx.floor('R6-number-layout', 6)
+    ctx.floor('R7-identity-lookup', 4)
     ctx.assumptions += ["number stability against the host and fd-based liveness after unlink are not examined"]
 
 
